@@ -92,6 +92,7 @@ class C01Machine(Machine):
         self.saw_multi = False
         self.saw_incremental = False
         self.schedule_no = 0
+        self.focus = []
 
     # ----------------------------------------------------------- generation
     def gen_op(self, rng):
@@ -278,6 +279,19 @@ class C01Machine(Machine):
                 self._new_schedule()
                 self.conv = Converter([], delimiter=self.config["delimiter"])
             conv = self.conv
+            # query - add - query: the strings this delivery is about are the last lookups before the
+            # call and the first lookups after it
+            if kind in ("add_record", "add_prefix", "dup"):
+                new_uris = [op["record"]["uri_prefix"], *op["record"]["uri_prefix_synonyms"]]
+            elif kind == "merge_piece":
+                new_uris = [op["uri_prefix"]]
+            else:
+                new_uris = []
+            self.focus = [u + "1" for u in new_uris[-2:]][::-1]
+            for f in reversed(self.focus):
+                observe.call(conv.is_uri, f)
+                observe.call(conv.compress, f)
+                observe.call(conv.parse_uri, f, return_none=True)
             if kind in ("add_record", "add_prefix"):
                 r = op["record"]
                 site = "Converter." + kind
@@ -381,7 +395,8 @@ class C01Machine(Machine):
                     if owners.owners[p] != owners.owners[q]:
                         self.probe("synonym_nested_in_other_record")
                     break
-        for u in self.probes:
+        focus, self.focus = self.focus, []
+        for u in focus + self.probes:
             want = owners.parse(u)
             nm = len(owners.matching(u))
             if nm >= 2:
